@@ -30,6 +30,11 @@ pub fn run(ctx: &mut Ctx) {
             solver_history(ctx, rng, 10, steps);
         });
     }
+    // recorded collision witnesses of the residual hash (F12): two reachable states of one solver
+    // with different residual formulas must not have the same hash
+    for case in ctx.cases("hash_witness", 2, false) {
+        ctx.run_case("hash_witness", case, |ctx, _rng| hash_witness(ctx, case));
+    }
     // the single clause of the known F5 history, under every literal order
     for case in ctx.cases("regress", 8, false) {
         ctx.run_case("regress", case, |ctx, _rng| {
@@ -41,6 +46,47 @@ pub fn run(ctx: &mut Ctx) {
                 fixed_history(ctx, &cl2, &h);
             }
         });
+    }
+}
+
+fn hash_witness(ctx: &mut Ctx, case: u64) {
+    use crate::witness::*;
+    let lit = |v: usize, p: bool| Literal::new(VarLabel::new(v as u64), p);
+    let (raw, sets): (RawCnf, Vec<Vec<(usize, bool)>>) = if case == 0 {
+        (witness1(), vec![S.iter().map(|v| (*v, false)).collect(), T.iter().map(|v| (*v, false)).collect()])
+    } else {
+        (witness2().0, vec![vec![(0, true)], vec![(0, false)]])
+    };
+    let cnf = rsdd::repr::Cnf::new(&raw.iter().map(|c| c.iter().map(|(v, p)| lit(*v, *p)).collect::<Vec<_>>()).collect::<Vec<_>>());
+    let n = cnf.num_vars();
+    let mut s = match SATSolver::new(cnf) {
+        Some(s) => s,
+        None => panic!("HARNESS: witness CNF reported unsatisfiable"),
+    };
+    let mut seen: Vec<(u128, Vec<Vec<(usize, bool)>>)> = Vec::new();
+    for decisions in &sets {
+        let mut model: Vec<Option<bool>> = vec![None; n];
+        let mut pushed = 0;
+        for (v, p) in decisions {
+            match s.decide(lit(*v, *p)) {
+                DecisionResult::UNSAT => panic!("HARNESS: witness decision reported UNSAT"),
+                _ => pushed += 1,
+            }
+            for l in s.difference_iter() {
+                model[l.label().value_usize()] = Some(l.polarity());
+            }
+        }
+        seen.push((s.cur_hash(), residual(&raw, &model)));
+        for _ in 0..pushed {
+            s.pop();
+        }
+        ctx.count("witness_states", 1);
+    }
+    ctx.case_eval(Some(crate::rng::mix(0xF12 ^ case)));
+    if seen[0].1 != seen[1].1 && seen[0].0 == seen[1].0 {
+        ctx.violation("up.hash.witness", "two reachable states of one solver have different residual formulas and the same hash (recorded witness)",
+            json!({"witness": case + 1, "hash": seen[0].0.to_string(), "variables": n, "clauses": raw.len(),
+                "decisions_a": sets[0].len(), "decisions_b": sets[1].len()}));
     }
 }
 
